@@ -130,14 +130,14 @@ CHECKS = {
         "min_histories": {"quick": 10000, "thorough": 300000},
         "unit": "generated command rounds + differential histories + hostile-frame histories",
         "aux": "miri_status",
-        "required_events": ["differential_history", "hostile_history", "hostile_frame_error_reply", "hostile_connection_closed", "hostile_member_connection_cleaned_up"],
+        "required_events": ["differential_history", "differential_over_tcp", "differential_over_quic", "hostile_history", "hostile_frame_error_reply", "hostile_connection_closed", "hostile_member_connection_cleaned_up"],
         "min_events": {"quick": {"differential_history": 8, "hostile_history": 8}, "thorough": {"differential_history": 60, "hostile_history": 60}},
         "rule": ("(a) Generated rounds: one structure-aware value of each of the 45 SDK commands (numeric/named identifiers of length 1,2,3,..,255, every partitioning kind, polling strategy, "
                  "header value kind, optional fields present/absent, nested permission tables, boundary numbers) is encoded with the SDK's to_bytes, framed, decoded by the server's "
                  "ServerCommand::from_bytes (hook H6) under catch_unwind, compared for equality with the original and validated on both sides; the same values go through the journal "
                  "encoding (19 EntryCommand kinds) and the on-disk message encoding (RetainedMessage). "
                  "(b) Differential histories on a real server: streams, topics, users (with nested permissions), groups, consumer offsets and messages with boundary values are created "
-                 "over TCP or HTTP (seeded choice) and read back over both transports by id and by name; answers must agree with each other and with what was sent; 23 JSON bodies that are not valid requests "
+                 "over the binary protocol or HTTP (seeded choice) and read back over both transports by id and by name; answers must agree with each other and with what was sent; the binary side is the harness' TCP framing client or, in every third history, the SDK's QuicClient against the server's QUIC listener (its own request framing, sender and session bookkeeping; events differential_over_tcp / differential_over_quic count the histories that completed on each); 23 JSON bodies that are not valid requests "
                  "(wrong types, out-of-range ids, violated limits, bad base64) are sent over HTTP with root's token and must be refused with the catalogue unchanged. "
                  "(c) Hostile histories: unauthenticated, permission-less and group-member connections send random bytes, short/oversized length prefixes, valid codes with random payloads, "
                  "truncated and bit-flipped valid frames and unknown codes; each must be answered by an error or a closed connection, a healthy connection's model-checked log and the catalogue "
